@@ -172,8 +172,8 @@ func c22Labels(cmds []c22Cmd) []string {
 // ---------------------------------------------------------------- universe
 
 var (
-	c22NodeIDs   = []string{"n1", "n2", "n3", "n4"}
-	c22NodeRoles = []string{"writer", "writer", "reader", "compactor"}
+	c22NodeIDs    = []string{"n1", "n2", "n3", "n4"}
+	c22NodeRoles  = []string{"writer", "writer", "reader", "compactor"}
 	c22ValidPaths = []string{
 		"db1/cpu/2026/04/11/14/a.parquet",
 		"db1/cpu/2026/04/11/15/b.parquet",
@@ -255,7 +255,9 @@ func c22UpdateFile(fe FileEntry) c22Cmd {
 func c22DeleteFile(path string) c22Cmd {
 	return c22Mk(fmt.Sprintf("delete_file(%q)", path), CommandDeleteFile, DeleteFilePayload{Path: path, Reason: "compaction"}, "file:"+path)
 }
-func c22AsMember(c c22Cmd) c22Member { return c22Member{Label: c.Label, Type: c.Type, Payload: c.Payload} }
+func c22AsMember(c c22Cmd) c22Member {
+	return c22Member{Label: c.Label, Type: c.Type, Payload: c.Payload}
+}
 
 func c22Token(name, hash, prefix, perms string, created int64) TokenEntry {
 	return TokenEntry{Name: name, Description: "d-" + name, Permissions: perms, TokenHash: hash, TokenPrefix: prefix,
@@ -442,7 +444,7 @@ type c22Gen struct {
 	pool map[string][]int64 // every id ever handed out by a create command, accepted or not
 	// family weights
 	wNode, wFile, wBatch, wToken, wRBAC, wMalformed, wRead int
-	c23 bool // C23 domain: add/update payloads never carry writer_state (as every real proposer)
+	c23                                                    bool // C23 domain: add/update payloads never carry writer_state (as every real proposer)
 }
 
 func c22NewGen(t *rapid.T, f *ClusterFSM) *c22Gen {
@@ -450,7 +452,9 @@ func c22NewGen(t *rapid.T, f *ClusterFSM) *c22Gen {
 		wNode: 3, wFile: 4, wBatch: 2, wToken: 4, wRBAC: 7, wMalformed: 1, wRead: 1}
 }
 
-func (g *c22Gen) pick(label string, xs []string) string { return rapid.SampledFrom(xs).Draw(g.t, label) }
+func (g *c22Gen) pick(label string, xs []string) string {
+	return rapid.SampledFrom(xs).Draw(g.t, label)
+}
 func (g *c22Gen) chance(label string, num, den int) bool {
 	return rapid.IntRange(0, den-1).Draw(g.t, label) < num
 }
@@ -601,22 +605,27 @@ func (g *c22Gen) nodeInfo() NodeInfo {
 func (g *c22Gen) genNode() c22Cmd {
 	f := g.f
 	for attempt := 0; ; attempt++ {
+		if attempt >= 20 {
+			// every attempt hit a shape excluded by an open finding: fall back to a
+			// command no exclusion applies to
+			return c22NodeState(g.nodeID(), "healthy")
+		}
 		switch rapid.IntRange(0, 11).Draw(g.t, "nodeop") {
 		case 0, 1, 2:
 			n := g.nodeInfo()
-			if g.c23 && f != nil && c23ReaddExcluded(f, n.ID) && attempt < 20 {
+			if g.c23 && f != nil && c23ReaddExcluded(f, n.ID) {
 				continue
 			}
 			return c22AddNode(n)
 		case 3:
 			n := g.nodeInfo()
-			if g.c23 && f != nil && c23ReaddExcluded(f, n.ID) && attempt < 20 {
+			if g.c23 && f != nil && c23ReaddExcluded(f, n.ID) {
 				continue
 			}
 			return c22UpdateNode(n)
 		case 4:
 			id := g.nodeID()
-			if g.c23 && f != nil && c23RemoveExcluded(f, id) && attempt < 20 {
+			if g.c23 && f != nil && c23RemoveExcluded(f, id) {
 				continue
 			}
 			return c22RemoveNode(id)
@@ -624,7 +633,7 @@ func (g *c22Gen) genNode() c22Cmd {
 			return c22NodeState(g.nodeID(), g.pick("newstate", []string{"healthy", "unhealthy", "dead"}))
 		case 6, 7, 8:
 			id := g.nodeID()
-			if g.c23 && f != nil && c23PromoteExcluded(f, id) && attempt < 20 {
+			if g.c23 && f != nil && c23PromoteExcluded(f, id) {
 				continue
 			}
 			old := g.pick("old", []string{"", "n1", "n2"})
